@@ -72,7 +72,7 @@ ARITH = ('add', 'sub', 'mul', 'div', 'mod', 'and', 'or', 'xor', 'asl', 'asr')
 
 class VM:
     def __init__(self, prog, max_steps=20000, timeout_ms=20000, addr_cap=16, monitor=None,
-                 sym_prefix='', stack_garbage=False, total_steps=None, deadline=None, max_paths=3000):
+                 sym_prefix='', stack_garbage=False, total_steps=None, deadline=None, max_paths=3000, concretize_dests=()):
         self.P = prog
         self.T = Terms(prog.word)
         self.W = prog.word
@@ -82,6 +82,7 @@ class VM:
         self.total_steps = total_steps
         self.deadline = deadline
         self.max_paths = max_paths
+        self.concretize_dests = set(concretize_dests)
         self.addr_cap = addr_cap
         self.mon = monitor
         self.sym_prefix = sym_prefix
@@ -473,6 +474,9 @@ class VM:
                 continue
             if op == 'mov':
                 v = self.opval(st, A[1])
+                if not isc(v) and A[0].val in self.concretize_dests:
+                    v, conds = self.resolve_addr(st, conds, v, work)
+                    self._c = conds
                 if mon is not None:
                     mon.dest_write(self, st, ins, A[0].val, v)
                 self.put(st.mem, A[0].val, v, W)
@@ -493,6 +497,9 @@ class VM:
                     elif self.feasible(conds, z3.UGE(T.Z(r), B)):
                         raise Unspecified('shift amount out of range feasible')
                 v = T.arith(op, l, r)
+                if not isc(v) and A[0].val in self.concretize_dests:
+                    v, conds = self.resolve_addr(st, conds, v, work)
+                    self._c = conds
                 if mon is not None:
                     mon.dest_write(self, st, ins, A[0].val, v)
                 self.put(st.mem, A[0].val, v, W)
@@ -513,6 +520,9 @@ class VM:
                     v = self.get(self.const, addr, n, csize)
                 if n == 1:
                     v = T.zext(v)
+                if not isc(v) and A[0].val in self.concretize_dests:
+                    v, conds = self.resolve_addr(st, conds, v, work)
+                    self._c = conds
                 if mon is not None:
                     mon.dest_write(self, st, ins, A[0].val, v)
                 self.put(st.mem, A[0].val, v, W)
